@@ -155,7 +155,15 @@ type e2eScript struct {
 	// request body / before answering.
 	ReadDelayMs int `json:"readDelayMs,omitempty"`
 	RespDelayMs int `json:"respDelayMs,omitempty"`
+	// FailReadN > 0: a failing contact (one of the first FailFirst) reads only FailReadN
+	// bytes of the request body and then resets the connection (RST) without a response
+	// byte: a backend that dies in the middle of an upload.  What it read is recorded with
+	// the body error e2ePartialRead.
+	FailReadN int `json:"failReadN,omitempty"`
 }
+
+// e2ePartialRead is the BodyErr of a contact that stopped reading on purpose (FailReadN).
+const e2ePartialRead = "e2e backend: scripted partial read"
 
 // e2eHangWatchdog bounds a "hang" script; its firing is reported in e2eSeen.HangExpired
 // and makes the exchange inconclusive.
@@ -272,7 +280,26 @@ func (b *e2eBackend) ServeHTTP(w http.ResponseWriter, r *http.Request) {
 	if sc != nil && sc.ReadDelayMs > 0 {
 		time.Sleep(time.Duration(sc.ReadDelayMs) * time.Millisecond)
 	}
-	body, err := io.ReadAll(r.Body)
+	partial := false
+	if sc != nil && sc.FailReadN > 0 {
+		b.mu.Lock()
+		prev := 0
+		if old := b.seen[id]; old != nil {
+			prev = old.N
+		}
+		b.mu.Unlock()
+		partial = prev+1 <= sc.FailFirst
+	}
+	var body []byte
+	var err error
+	if partial {
+		body, err = io.ReadAll(io.LimitReader(r.Body, int64(sc.FailReadN)))
+		if err == nil {
+			err = errors.New(e2ePartialRead)
+		}
+	} else {
+		body, err = io.ReadAll(r.Body)
+	}
 	seen := &e2eSeen{
 		Method: r.Method, RequestURI: r.RequestURI, Host: r.Host, Header: r.Header.Clone(),
 		Body: body, CL: r.ContentLength, N: 1,
@@ -312,6 +339,17 @@ func (b *e2eBackend) ServeHTTP(w http.ResponseWriter, r *http.Request) {
 	}
 	mode := sc.Mode
 	if nth <= sc.FailFirst {
+		if partial {
+			if hj, ok := w.(http.Hijacker); ok {
+				if c, _, err := hj.Hijack(); err == nil {
+					if tc, ok := c.(*net.TCPConn); ok {
+						tc.SetLinger(0)
+					}
+					c.Close()
+				}
+			}
+			return
+		}
 		if sc.FailStatus != 0 {
 			w.Header().Set("Content-Type", "text/plain")
 			w.Header().Set("X-E2e-Failed-Attempt", strconv.Itoa(nth))
@@ -471,9 +509,20 @@ type e2eCfg struct {
 	FailureCodes  []int     `json:"failureCodes,omitempty"`
 	Retry         *e2eRetry `json:"retry,omitempty"`         // pipeline resilience policy used by the pool
 	PoolTimeoutMs int       `json:"poolTimeoutMs,omitempty"` // pool `timeout`
+	// pipeline resilience policy used by the pool as circuitBreakerPolicy
+	CircuitBreaker *e2eCB `json:"circuitBreaker,omitempty"`
 	// DeadPort: the pool's only server is 127.0.0.1:<DeadPort>, a port that refuses
 	// connections (see e2eReservePort)
 	DeadPort string `json:"deadPort,omitempty"`
+}
+
+// e2eCB is a CircuitBreaker resilience policy (count based window).
+type e2eCB struct {
+	WindowSize        int `json:"slidingWindowSize"`
+	MinCalls          int `json:"minimumNumberOfCalls"`
+	FailureRate       int `json:"failureRateThreshold"`
+	WaitOpenMs        int `json:"waitDurationInOpenStateMs"`
+	PermittedHalfOpen int `json:"permittedNumberOfCallsInHalfOpenState"`
 }
 
 // e2eRetry is a Retry resilience policy.
@@ -543,9 +592,16 @@ func (c *e2eCfg) pipelineYAML(be *e2eBackend) string {
 	if c.RespAd != nil {
 		b.WriteString("- filter: respad\n")
 	}
+	if c.Retry != nil || c.CircuitBreaker != nil {
+		b.WriteString("resilience:\n")
+	}
 	if c.Retry != nil {
-		fmt.Fprintf(&b, "resilience:\n- name: retry\n  kind: Retry\n  maxAttempts: %d\n  waitDuration: %dms\n  randomizationFactor: %g\n",
+		fmt.Fprintf(&b, "- name: retry\n  kind: Retry\n  maxAttempts: %d\n  waitDuration: %dms\n  randomizationFactor: %g\n",
 			c.Retry.MaxAttempts, c.Retry.WaitMs, c.Retry.Random)
+	}
+	if cb := c.CircuitBreaker; cb != nil {
+		fmt.Fprintf(&b, "- name: breaker\n  kind: CircuitBreaker\n  slidingWindowType: COUNT_BASED\n  slidingWindowSize: %d\n  minimumNumberOfCalls: %d\n  failureRateThreshold: %d\n  waitDurationInOpenState: %dms\n  permittedNumberOfCallsInHalfOpenState: %d\n",
+			cb.WindowSize, cb.MinCalls, cb.FailureRate, cb.WaitOpenMs, cb.PermittedHalfOpen)
 	}
 	b.WriteString("filters:\n")
 	if c.ReqAd != nil {
@@ -568,6 +624,9 @@ func (c *e2eCfg) pipelineYAML(be *e2eBackend) string {
 	}
 	if c.Retry != nil {
 		b.WriteString("    retryPolicy: retry\n")
+	}
+	if c.CircuitBreaker != nil {
+		b.WriteString("    circuitBreakerPolicy: breaker\n")
 	}
 	if c.PoolTimeoutMs > 0 {
 		fmt.Fprintf(&b, "    timeout: %dms\n", c.PoolTimeoutMs)
